@@ -47,6 +47,16 @@ theorem saves_fit (f : LenFacts) (ht : f.tsDigits ≤ 10) (ceiling : Nat) (hc : 
   ⟨fun n hn => Oidc.Codec.chunk_fits f ht ceiling n hc hn, fun n hn => Oidc.Codec.whole_fits f ht ceiling n hc hn,
    fun count entries em inc h1 h2 h3 h4 => Oidc.Codec.main_fits f ht ceiling count entries em inc hc h1 h2 h3 h4⟩
 
+/-- **lines that delete a cookie** (stale chunk cookies, a cleared session): the value is empty, so the line is the name plus at most
+    91 bytes.  `deleteStaleChunkCookies` echoes a name only when it is one the middleware itself writes — `<base>_<index>` in canonical
+    decimal (fix F19; text obligation `Text_SessionData_deleteStaleChunkCookies`): 15 bytes, `_`, and the at most 20 characters of an
+    `int` — so the name has at most 36 bytes and the line at most 127. -/
+theorem delete_line_le_4096 (secure : Bool) (nameLen : Nat) (h : nameLen ≤ 36) : delLineLen secure nameLen ≤ 127 ∧ delLineLen secure nameLen ≤ 4096 := by
+  unfold delLineLen; cases secure <;> simp <;> omega
+
+/-- calibration: the deleting line of `_oidc_raczylo_r_+7` observed on the tree before F19 had 101 bytes (not Secure) -/
+example : delLineLen false 18 = 101 := by decide
+
 /-- the attribute text of every line that sets a cookie (the model the correspondence runs compare, byte for byte, with every
     line the implementation emits): Path=/, Max-Age = the session lifetime, HttpOnly, Secure when required, SameSite=Lax — and
     nothing else (no Domain) -/
